@@ -182,6 +182,15 @@ def _gen_job(args):
     return t
 
 
+def _cfg(**off):
+    one = dict({'vi': True, 'ni': True, 'vo': True, 'no': True, 'enc': False}, **off)
+    return {'c': one, 's': dict(one)}
+
+
+CFG_ROTATION = [_cfg(vi=False), _cfg(ni=False), _cfg(vo=False), _cfg(no=False), _cfg(vi=False, ni=False), _cfg(vo=False, no=False),
+                _cfg(enc=True)]
+
+
 def record_traces(pid, tier, seed):
     """Random executions of the real code (current tree), recorded by harness/gen.py in worker processes."""
     import multiprocessing
@@ -190,11 +199,15 @@ def record_traces(pid, tier, seed):
         n = e['n'][tier]
         for i in range(n):
             mc = e.get('max_closed', [None])
-            cfgs = e.get('cfgs', [None])
-            if tier == 'quick':
-                cfgs = cfgs[:2]
+            if 'cfgs' in e:
+                cfgs = e['cfgs'][:2] if tier == 'quick' else e['cfgs']
+                cfg = cfgs[i % len(cfgs)]
+            else:
+                # every fourth execution runs under a non-default configuration (validation / normalisation switches and
+                # header_encoding in rotation): the properties hold "under any configuration" unless they say otherwise
+                cfg = CFG_ROTATION[(seed + i // 4) % len(CFG_ROTATION)] if i % 4 == 3 else None
             jobs.append((e['profile'], e['flavour'], seed * 1000003 + i, e['length'][tier], mc[i % len(mc)], e.get('chaos'),
-                         bool(e.get('chunked')), cfgs[i % len(cfgs)]))
+                         bool(e.get('chunked')), cfg))
     if not jobs:
         return []
     ctx = multiprocessing.get_context('fork')
